@@ -152,6 +152,7 @@ class Engine:
         self.paths = 0
         self.path_budget = 4000
         self.feas_calls = 0
+        self.feas_timeout_ms = 3000
         self.spec_funcs = {}
         self.hooks = {}
         self.events = []
@@ -160,7 +161,7 @@ class Engine:
     def feasible(self, pc, extra=None):
         lits = list(pc) + ([extra] if extra is not None else [])
         s = z3.Solver()
-        s.set("timeout", 3000)
+        s.set("timeout", self.feas_timeout_ms)
         for l in lits:
             s.add(l)
         self.feas_calls += 1
@@ -217,6 +218,8 @@ class Engine:
                 return V(CLS, ("class", fr.file, name))
             if name in mod.externs:
                 return mod.externs[name]
+            if self.reg.lookup(fr.file, name) is not None and self.reg.lookup(fr.file, name).extern:
+                return V(FN, ("func", fr.file, name))
             if name in mod.imports:
                 kind, file2, nm = mod.imports[name]
                 if file2 in self.modules:
@@ -233,6 +236,8 @@ class Engine:
             return V(CLS, ("builtin", name))
         if exc_class(name):
             return V(CLS, ("exc", name))
+        if name in self.C_PRIMS:
+            return V(FN, ("cprim", name))
         if hasattr(builtins, name):
             return V(FN, ("builtin", name))
         raise ToolLimit(f"unresolved name {name!r}")
@@ -555,8 +560,9 @@ class Engine:
             s, o = (a, b) if a.k == "seq" else (b, a)
             items = self.static_items(o, st)
             if items is not None:
-                lit = z3.Concat(*[z3.Unit(as_int_term(x)) for x in items]) if len(items) > 1 else (
-                    z3.Unit(as_int_term(items[0])) if items else z3.Empty(s.t.sort()))
+                el = (lambda x: as_int_term(x)) if s.a == "int" else (lambda x: as_real_term(x) if s.a == "real" else x.t)
+                lit = z3.Concat(*[z3.Unit(el(x)) for x in items]) if len(items) > 1 else (
+                    z3.Unit(el(items[0])) if items else z3.Empty(s.t.sort()))
                 return s.t == lit
         return py_eq(a, b)
 
@@ -637,6 +643,9 @@ class Engine:
                 return
             if op in ("FloorDiv", "Mod"):
                 x, y, k = coerce_pair(a, b)
+                if self.spec_mode and k == INT:
+                    yield st, vint(floordiv_int(x, y) if op == "FloorDiv" else mod_int(x, y))
+                    return
                 for s1, z in self.fork(st, y == 0):
                     if z:
                         yield s1, Raised("ZeroDivisionError")
@@ -653,7 +662,7 @@ class Engine:
             if items is not None:
                 t = a.t
                 for x in items:
-                    t = z3.Concat(t, z3.Unit(as_int_term(x) if a.a == "int" else x.t))
+                    t = z3.Concat(t, z3.Unit(as_int_term(x) if a.a == "int" else as_real_term(x) if a.a == "real" else x.t))
                 yield st, V("seq", t, a.a)
                 return
             if b.k == "seq":
@@ -1031,6 +1040,8 @@ class _CallMixin:
             return vbool(z3.Implies(b(args[0]), b(args[1])))
         if name == "iff":
             return vbool(b(args[0]) == b(args[1]))
+        if name == "ite" and args[1].k == "seq" and args[2].k == "seq":
+            return V("seq", z3.If(b(args[0]), args[1].t, args[2].t), args[1].a)
         if name == "ite":
             m = self.merge(b(args[0]), args[1], args[2])
             if m is None:
@@ -1150,6 +1161,9 @@ class _CallMixin:
             if tag == "builtin":
                 yield from self.call_builtin(f.t[1], pos, kw, st, node, from_gen)
                 return
+            if tag == "cprim":
+                yield from self.call_c_prim(f.t[1], pos, st, node)
+                return
             if tag == "func":
                 yield from self.call_unit(f.t[1], f.t[2], None, pos, kw, st, node)
                 return
@@ -1189,6 +1203,76 @@ class _CallMixin:
         raise ToolLimit(f"call of {f.k}:{f.t if f.k != REF else ''}")
 
     # ---------------------------------------------------------------- builtins
+    C_PRIMS = ("ck_i8", "ck_i16", "ck_i32", "ck_i64", "wrap_u8", "wrap_u16", "wrap_u32", "wrap_u64", "c_div", "c_mod", "i2f", "f_div",
+               "f2i_i8", "f2i_i16", "f2i_i32", "f2i_u8", "f2i_u16", "f2i_u32", "c_bitand", "str_of_int", "str_of_float2",
+               "str_substring")
+
+    def call_c_prim(self, name, pos, st, node):
+        """C/AVR semantics made explicit by cxx2py.  Signed overflow, division by zero and out-of-range float->int
+        conversions are undefined behaviour: each generates a run-time-error obligation (never wrap-around)."""
+        site = self.call_ordinal(st, node, name)
+        if name.startswith("ck_i"):
+            bits = int(name[4:])
+            v = as_int_term(pos[0])
+            self.oblige(st, f"rte/no-overflow-{name[3:]}#{site}", z3.And(v >= -(2 ** (bits - 1)), v <= 2 ** (bits - 1) - 1),
+                        f"signed {bits}-bit result in range")
+            yield st, vint(v)
+            return
+        if name.startswith("wrap_u"):
+            bits = int(name[6:])
+            v = simp(as_int_term(pos[0]))
+            in_range = z3.And(v >= 0, v < 2 ** bits)
+            if (z3.is_int_value(v) and 0 <= v.as_long() < 2 ** bits) or not self.feasible(st.pc, z3.Not(in_range)):
+                yield st, vint(v)      # value already representable: the conversion is the identity
+            else:
+                yield st, vint(v % (2 ** bits))
+            return
+        if name in ("c_div", "c_mod"):
+            a, b = as_int_term(pos[0]), as_int_term(pos[1])
+            self.oblige(st, f"rte/div-by-zero#{site}", b != 0, "integer division by zero")
+            q = z3.If(b > 0, z3.If(a >= 0, a / b, -((-a) / b)), z3.If(a >= 0, -(a / (-b)), (-a) / (-b)))
+            yield st, vint(q if name == "c_div" else a - b * q)
+            return
+        if name == "i2f":
+            yield st, vreal(as_real_term(pos[0]))
+            return
+        if name == "f_div":
+            a, b = as_real_term(pos[0]), as_real_term(pos[1])
+            self.oblige(st, f"rte/float-div-by-zero#{site}", b != 0, "float division by zero")
+            yield st, vreal(a / b)
+            return
+        if name.startswith("f2i_"):
+            signed, bits = name[4] == "i", int(name[5:])
+            x = as_real_term(pos[0])
+            t = trunc_real(x)
+            lo, hi = (-(2 ** (bits - 1)), 2 ** (bits - 1) - 1) if signed else (0, 2 ** bits - 1)
+            self.oblige(st, f"rte/float-to-int-{name[4:]}#{site}", z3.And(t >= lo, t <= hi), "float value representable in the integer type")
+            yield st, vint(t)
+            return
+        if name == "c_bitand":
+            a, b = as_int_term(pos[0]), simp(as_int_term(pos[1]))
+            if z3.is_int_value(b) and (b.as_long() + 1) & b.as_long() == 0:
+                self.oblige(st, f"rte/bitand-nonneg#{site}", a >= 0, "masking a non-negative value")
+                yield st, vint(a % (b.as_long() + 1))
+                return
+            raise ToolLimit("bitwise and with a non-mask operand")
+        if name == "str_of_int":
+            yield st, vstr(self.to_str_term(vint(as_int_term(pos[0])), st))
+            return
+        if name == "str_of_float2":
+            yield st, vstr(self.STR_OF_REAL(as_real_term(pos[0])))
+            return
+        if name == "str_substring":
+            s, a, b = pos[0].t, as_int_term(pos[1]), as_int_term(pos[2])
+            n = z3.Length(s)
+            # Arduino String::substring: begin > end are swapped; end clamped to length; begin >= length -> ""
+            lo = z3.If(a > b, b, a)
+            hi = z3.If(a > b, a, b)
+            hi = z3.If(hi > n, n, hi)
+            yield st, vstr(z3.If(lo >= n, z3.StringVal(""), z3.SubString(s, lo, hi - lo)))
+            return
+        raise ToolLimit(f"C primitive {name}")
+
     def call_builtin(self, name, pos, kw, st, node, from_gen=False):
         if kw and name not in ("print", "sorted"):
             raise ToolLimit(f"keyword arguments to builtin {name}")
@@ -1761,7 +1845,11 @@ class _CallMixin:
             f[path[5:]] = val
             st.heap[selfv.t] = Obj(cell.cls, f)
         elif path.startswith("ghost."):
+            if val.k == "cell":
+                val = st.alloc(val.t)
             st.ghost[path[6:]] = val
+        elif path.startswith("glob."):
+            st.glob[path[5:]] = val
         else:
             raise SpecError(f"ghost update path {path}")
 
@@ -2091,8 +2179,9 @@ class _StmtMixin:
     def loop_frame(self, body, st):
         """Syntactic frame of a loop body: (locals, self fields, ghosts, globs, mutated list locals)."""
         fr = st.sframes[-1]
-        locs = self.assigned_names(body)
-        fields, ghosts, globs, lists = [], [], [], []
+        locs = [n for n in self.assigned_names(body) if n not in fr.globals_declared]
+        fields, ghosts, lists = [], [], []
+        globs = [n for n in self.assigned_names(body) if n in fr.globals_declared]
 
         def add_contract(c):
             for m in c.modifies:
@@ -2427,6 +2516,7 @@ class _StmtMixin:
         self.assume_inv(spec, st, nm, old_st)
         for s3, taken in self.fork(st, i.t < hi):
             if not taken:
+                s3.assume(i.t == upper)     # implied by lo <= i <= max(lo, hi) and not i < hi; stated for the solver
                 self.use_lemmas(spec.get("use_exit"), s3, nm, old_st)
                 yield ("next",), s3
                 continue
